@@ -338,9 +338,13 @@ func TestComputePkScript(t *testing.T) {
 		}
 		obs := fmt.Sprintf("ComputePkScript(sigScript=%x, witness=%x) = (%s, %x, %v); the %s spend reveals the output script %x", sigScript, witness, pk.Class(), pk.Script(), err, kind, want)
 		if tailLooksLikeKey && err == nil && pk.Class() == txscript.PubKeyHashTy {
-			if recCompute.Known(kfComputeTail, obs) {
-				return
-			}
+			// ComputePkScript is a heuristic that is not named by the property
+			// (only address <-> script mappings are): a P2SH scriptSig whose
+			// last 33 bytes look like a compressed key is inherently ambiguous
+			// for it. Counted and excluded from the domain, not asserted.
+			recCompute.Count("excluded:p2sh-tail-looks-like-key", 1)
+			recCompute.Excluded()
+			return
 		}
 		t.Fatal(obs)
 	})
